@@ -1,8 +1,10 @@
 package sim
 
 import (
+	"bytes"
 	"fmt"
 	"net/url"
+	"os"
 	"strconv"
 	"strings"
 	"time"
@@ -60,7 +62,9 @@ type sStream struct {
 	segs      []*sSeg
 	init      []byte
 	initURI   string
-	blob      []byte
+	initBR    int               // EXT-X-MAP BYTERANGE: 0 none, 1 "n@o", 2 "n" (no offset: from the start of the resource)
+	initOff   uint64            // offset of the init section inside its resource (initBR 1)
+	blobs     map[string][]byte // byte-range resources by URI
 	blobURI   string
 	plURL     *url.URL
 	// playlist evolution
@@ -237,7 +241,14 @@ func (st *sStream) playlist(first, last int, endlist bool, skipTo int) []byte {
 		fmt.Fprintf(&b, "#EXT-X-PLAYLIST-TYPE:%s\n", st.plType)
 	}
 	if st.container == "fmp4" {
-		fmt.Fprintf(&b, "#EXT-X-MAP:URI=\"%s\"\n", st.initURI)
+		switch st.initBR {
+		case 1:
+			fmt.Fprintf(&b, "#EXT-X-MAP:URI=\"%s\",BYTERANGE=\"%d@%d\"\n", st.initURI, len(st.init), st.initOff)
+		case 2:
+			fmt.Fprintf(&b, "#EXT-X-MAP:URI=\"%s\",BYTERANGE=\"%d\"\n", st.initURI, len(st.init))
+		default:
+			fmt.Fprintf(&b, "#EXT-X-MAP:URI=\"%s\"\n", st.initURI)
+		}
 	}
 	for i := first; i <= last && i < len(st.segs); i++ {
 		sg := st.segs[i]
@@ -287,13 +298,13 @@ func (st *sStream) stateAt(now time.Duration) (first, last int, endlist bool) {
 			}
 		}
 	}
-	first = 0
-	if st.mode != "event" && st.window > 0 && last-st.window+1 > 0 {
-		first = last - st.window + 1
-	}
 	endlist = st.endAfter >= 0 && last+1 >= st.endAfter
 	if endlist && last+1 > st.endAfter {
 		last = st.endAfter - 1
+	}
+	first = 0
+	if st.mode != "event" && st.window > 0 && last-st.window+1 > 0 {
+		first = last - st.window + 1
 	}
 	return
 }
@@ -372,6 +383,9 @@ func (o *stubOrigin) serve(nr *netReq) *originResp {
 			if last < 0 {
 				return &originResp{status: 404, body: []byte("not yet"), done: true}
 			}
+			if os.Getenv("VERIF_DEBUG") != "" {
+				fmt.Fprintf(os.Stderr, "DBG playlist %s at %v:\nDBG %s\n", st.name, now, strings.ReplaceAll(string(st.playlist(first, last, end, 0)), "\n", "\nDBG "))
+			}
 			return &originResp{status: 200, body: st.playlist(first, last, end, 0), ctype: "application/vnd.apple.mpegurl", done: true}
 		}
 		res := func(ref string) *url.URL {
@@ -383,7 +397,19 @@ func (o *stubOrigin) serve(nr *netReq) *originResp {
 		}
 		if st.initURI != "" {
 			if iu := res(st.initURI); iu != nil && sameResource(u, iu) {
-				return &originResp{status: 200, body: st.init, ctype: "video/mp4", done: true}
+				if st.initBR == 0 {
+					return &originResp{status: 200, body: st.init, ctype: "video/mp4", done: true}
+				}
+				// the init section sits inside a larger resource: bytes before it (initBR 1) and after it
+				body := append(append(bytes.Repeat([]byte{0xee}, int(st.initOff)), st.init...), bytes.Repeat([]byte{0xdd}, 37)...)
+				if h := nr.req.Header.Get("Range"); h != "" {
+					s, e, ok := parseRange(h)
+					if !ok || s > e || e >= uint64(len(body)) {
+						return &originResp{status: 416, body: []byte("bad range"), done: true}
+					}
+					return &originResp{status: 206, body: body[s : e+1], ctype: "video/mp4", done: true}
+				}
+				return &originResp{status: 200, body: body, ctype: "video/mp4", done: true}
 			}
 		}
 		for _, sg := range st.segs {
@@ -393,7 +419,7 @@ func (o *stubOrigin) serve(nr *netReq) *originResp {
 			}
 			body := sg.body
 			if sg.hasBR {
-				body = st.blob
+				body = st.blobs[sg.uri]
 			}
 			if h := nr.req.Header.Get("Range"); h != "" {
 				s, e, ok := parseRange(h)
@@ -692,6 +718,12 @@ func genStubOrigin(r *Run, g *originGen) *stubOrigin {
 		if st.container == "fmp4" {
 			st.init = renderInit(st)
 			st.initURI = st.name + "_init.mp4"
+			if g.byteRanges && T.Chance(1, 5) {
+				st.initBR = T.Range(1, 2)
+				if st.initBR == 1 {
+					st.initOff = uint64(T.Range(0, 300))
+				}
+			}
 			if uriStyle == 3 {
 				st.initURI += "?k=v"
 			}
@@ -707,6 +739,8 @@ func genStubOrigin(r *Run, g *originGen) *stubOrigin {
 		}
 		useBR := g.byteRanges && T.Chance(1, 4)
 		explicit := T.Chance(1, 2)
+		perFile := Pick(T, 1<<30, 1<<30, 1, 2, 3) // segments packed into one resource
+		st.blobs = map[string][]byte{}
 		for _, sg := range st.segs {
 			name := fmt.Sprintf("%s_%d%s", st.name, sg.idx, ext)
 			switch uriStyle {
@@ -727,11 +761,12 @@ func genStubOrigin(r *Run, g *originGen) *stubOrigin {
 			}
 			if useBR {
 				sg.hasBR = true
-				sg.brStart = uint64(len(st.blob))
+				sg.uri = fmt.Sprintf("%s_all%d%s", st.name, sg.idx/perFile, ext)
+				sg.brStart = uint64(len(st.blobs[sg.uri]))
 				sg.brLen = uint64(len(sg.body))
-				sg.brExplicitStart = explicit || sg.idx == 0
-				st.blob = append(st.blob, sg.body...)
-				sg.uri = st.name + "_all" + ext
+				// the first range of a resource needs an explicit offset (the previous segment is another resource)
+				sg.brExplicitStart = explicit || sg.brStart == 0
+				st.blobs[sg.uri] = append(st.blobs[sg.uri], sg.body...)
 			}
 		}
 		st.targetDur = int(segDur.Seconds() + 0.5)
